@@ -189,6 +189,7 @@ func init() {
 			for st := 0; st <= 4; st++ {
 				js = append(js, J(".", "VX_C03_HookPanic", st))
 			}
+			js = append(js, historyJobs(tier, false)...)
 			// vetoes of the reply-side hooks; panics whose value is a *Status
 			js = append(js, J(".", "VX_C03_Frame", 1, 0, 0, 0, 4, 0, 1, 0), J(".", "VX_C03_Frame", 1, 0, 0, 0, 5, 0, 1, 0), J(".", "VX_C03_Frame", 1, 0, 0, 5, 0, 0, 1, 0), J(".", "VX_C03_Frame", 1, 0, 0, 6, 0, 0, 1, 0))
 			if tier == "thorough" {
@@ -225,6 +226,7 @@ func init() {
 		add(3, 1, 0, 1, 0, 0, 0)
 		js = append(js, J(".", "VX_C02_CloseThenLoss", 0), J(".", "VX_C02_CloseThenLoss", 1), J(".", "VX_C02_HandlerCallsBack"))
 		js = append(js, J(".", "VX_C02_FastReply", 0, 1), J(".", "VX_C02_FastReply", 1, 0))
+		js = append(js, historyJobs(tier, true)...)
 		js = append(js, J(".", "VX_C02_ReplyThenLoss", 0, 1, 0), J(".", "VX_C02_ReplyThenLoss", 0, 4, 0), J(".", "VX_C02_ReplyThenLoss", 1, 1, 0), J(".", "VX_C02_ReplyThenLoss", 0, 1, 1),
 			J(".", "VX_C14_DisconnectWhileLaunching", 0, 0), J(".", "VX_C14_DisconnectWhileLaunching", 1, 1), J(".", "VX_C14_DisconnectWhileLaunching", 0, 1))
 		for _, cut := range []int{1, 3, 4, 5, 9, 14, 18} {
@@ -253,6 +255,7 @@ func init() {
 			js := []job{J(".", "VX_C08_GracefulClose", 0, 1), J(".", "VX_C08_GracefulClose", 1, 1), J(".", "VX_C08_GracefulClose", 2, 1), J(".", "VX_C02_CloseThenLoss", 1), J(".", "VX_C02_CloseThenLoss", 0),
 				J(".", "VX_C08_CloseTwoPending", 0), J(".", "VX_C08_CloseTwoPending", 1),
 				J(".", "VX_C08_CloseHandlerNeedsTraffic", 0), J(".", "VX_C08_CloseHandlerNeedsTraffic", 1), J(".", "VX_C07_CloseWaitsThenLoss", 0)}
+			js = append(js, historyJobs(tier, true)...)
 			if tier == "thorough" {
 				js = append(js, J(".", "VX_C08_GracefulClose", 0, 3), J(".", "VX_C08_GracefulClose", 1, 3), J(".", "VX_C08_GracefulClose", 2, 0))
 			}
@@ -350,6 +353,7 @@ func init() {
 				J(".", "VX_C07_AcceptHooks", 0, 0), J(".", "VX_C07_AcceptHooks", 1, 0), J(".", "VX_C07_AcceptHooks", 0, 1), J(".", "VX_C07_AcceptHooks", 1, 1),
 				J(".", "VX_C07_CloseRace", 1), J(".", "VX_C07_CloseRace", 2), J(".", "VX_C07_ModifySocket", 0), J(".", "VX_C07_ModifySocket", 1),
 				J(".", "VX_C07_DialHooks", 0), J(".", "VX_C07_DialHooks", 1), J(".", "VX_C07_DialHooks", 2), J(".", "VX_C07_CloseWaitsThenLoss", 0)}
+			js = append(js, historyJobs(tier, false)...)
 			if tier == "thorough" {
 				js = append(js, J(".", "VX_C07_History", 5))
 			}
@@ -559,4 +563,20 @@ func init() {
 		explanation: "documented-concurrent operations (swap access, id change vs lookup/enumeration, concurrent calls with reply delivery, push vs reply write vs close, age setters/getters, double close, call vs remote close) run in separate interpreted goroutines of the real code with a vector-clock happens-before race detector over every interpreted load/store/map access; detection is per execution and schedule-independent for the executed paths; selected scenarios additionally explored over schedules with one pre-emption",
 		bounds:      "7 scenarios of 2-3 goroutines plus a call being launched (inside its pre-write hook) while the reader handles the loss of the connection; run-to-block schedule (+ all schedules with 1 pre-emption for listed scenarios); sequentially consistent execution",
 	})
+}
+
+// historyJobs: solver-chosen session histories with a reference model
+// (assertions tagged per property).
+func historyJobs(tier string, deep bool) []job {
+	if tier != "thorough" {
+		return []job{J(".", "VX_Session_History", 4)}
+	}
+	if !deep {
+		return []job{J(".", "VX_Session_History", 5)}
+	}
+	var js []job
+	for first := 0; first <= 8; first++ {
+		js = append(js, J(".", "VX_Session_History", 6, first))
+	}
+	return js
 }
